@@ -118,6 +118,9 @@ struct Broker {
     out_q2_pub: Vec<(u16, Vec<u8>)>,
     out_q2_rel: Vec<u16>,
     in_q2: HashSet<u16>,
+    /// identifiers of requests the broker has received and not yet finally acknowledged (from what went
+    /// over the wire: the client must still hold every one of them)
+    wire_open: HashSet<u16>,
     connected: bool,
     closed: bool,
     sent_acks: Vec<Vec<u8>>,
@@ -248,6 +251,7 @@ impl RandomDirector {
             self.broker.out_q2_pub.clear();
             self.broker.out_q2_rel.clear();
             self.broker.in_q2.clear();
+            self.broker.wire_open.clear();
         }
         self.broker.has_session = true;
         if !self.benign && self.chance(self.p.p_bad_connack) {
@@ -391,6 +395,7 @@ impl RandomDirector {
             match cp.kind {
                 1 => self.broker_connack(cp.clean_start),
                 3 if cp.qos == 1 => {
+                    // (acknowledged at once: the identifier is open only until this answer is on its way)
                     let code = self.ack_reason(&[0, 0, 0, 0x10]);
                     let short = if code != 0 && short == 2 { 3 } else { short };
                     self.push_ack(rc::ack(4, cp.id, code, short, &[]));
@@ -401,11 +406,15 @@ impl RandomDirector {
                     let short = if code != 0 && short == 2 { 3 } else { short };
                     if code < 0x80 {
                         self.broker.in_q2.insert(cp.id);
+                        self.broker.wire_open.insert(cp.id);
+                    } else {
+                        self.broker.wire_open.remove(&cp.id);
                     }
                     self.push_ack(rc::ack(5, cp.id, code, short, &[]));
                 }
                 6 => {
                     let known = self.broker.in_q2.remove(&cp.id);
+                    self.broker.wire_open.remove(&cp.id);
                     let code = if known { 0 } else { 0x92 };
                     let short = if code != 0 && short == 2 { 3 } else { short };
                     self.push_ack(rc::ack(7, cp.id, code, short, &[]));
@@ -1031,10 +1040,6 @@ impl Director for RandomDirector {
                 return TopDec::Adv(view.now_ms + self.rng.gen_range(1..20000));
             }
             if self.chance(self.p.p_setid) {
-                // the end of the 16-bit range: the next allocations wrap (zero is no identifier)
-                if self.chance(0.25) {
-                    return TopDec::SetNextId(65535 - self.rng.gen_range(0..3));
-                }
                 // bring the identifier counter (back) onto something in flight, or just before it
                 let mut ids: Vec<u16> = Vec::new();
                 if let Some(snap) = &view.snap {
@@ -1044,9 +1049,21 @@ impl Director for RandomDirector {
                         }
                     }
                 }
+                // an exchange the broker holds open and the client no longer knows: first of all onto that
+                let mut lost: Vec<u16> = self.broker.in_q2.iter().copied().filter(|i| !ids.contains(i)).collect();
+                lost.sort_unstable();
+                if !lost.is_empty() {
+                    let id = lost[self.rng.gen_range(0..lost.len())];
+                    return TopDec::SetNextId(id);
+                }
+                // the end of the 16-bit range: the next allocations wrap (zero is no identifier)
+                if self.chance(0.25) {
+                    return TopDec::SetNextId(65535 - self.rng.gen_range(0..3));
+                }
                 // exchanges the broker still holds open (QoS 2 publishes it has answered with PUBREC
                 // and not seen the PUBREL of): the client must hold them too
                 ids.extend(self.broker.in_q2.iter().copied());
+                ids.extend(self.broker.wire_open.iter().copied());
                 if !ids.is_empty() {
                     let id = ids[self.rng.gen_range(0..ids.len())];
                     let id = if self.chance(0.3) && id > 1 { id - 1 } else { id };
